@@ -37,7 +37,12 @@ type Scenario struct {
 
 // Options bound the exploration.
 type Options struct {
-	PB, DB      int   // preemption / deviation bound
+	PB, DB int // preemption / deviation bound
+	// FB bounds the non-default choices at points where the running thread cannot continue (0 = unbounded).
+	FB int
+	// FB bounds the number of non-default choices at points where the running thread cannot continue
+	// (it blocked or finished): which of the other runnable threads goes next. 0 = unbounded.
+	FB          int
 	MaxExec     int64 // execution cap (0 = none)
 	Deadline    time.Time
 	Shard, Of   int // this worker explores subtrees k with k%Of==Shard at ShardLevel
@@ -252,27 +257,29 @@ func (e *explorer) explore(prefix []int, expect []cpRec, level int) {
 		return
 	}
 	// children
-	pre, dev := 0, 0
+	pre, dev, free := 0, 0, 0
 	for i := 0; i < len(x.cps); i++ {
 		p := x.cps[i]
 		if i >= len(prefix) {
 			for alt := 1; alt < p.n; alt++ {
-				cp, cd := pre, dev
+				cp, cd, cf := pre, dev, free
 				switch p.kind {
 				case 'T':
 					if p.curEnabled {
 						cp++
+					} else {
+						cf++
 					}
 				case 'S':
 					cp++
 				case 'E':
 					cd++
 				}
-				if (e.opt.PB >= 0 && cp > e.opt.PB) || cd > e.opt.DB {
+				if (e.opt.PB >= 0 && cp > e.opt.PB) || cd > e.opt.DB || (e.opt.FB > 0 && cf > e.opt.FB) {
 					continue
 				}
 				if e.sc.StateCache && p.opts != nil && alt < len(p.opts) {
-					k := mix(mix(p.fp, p.opts[alt]), mix(e.budgetKey(cp, cd), uint64(p.kind)))
+					k := mix(mix(p.fp, p.opts[alt]), mix(e.budgetKey(cp, cd)^uint64(cf)<<20, uint64(p.kind)))
 					if _, ok := e.seen[k]; ok {
 						e.st.Pruned++
 						continue
@@ -296,6 +303,8 @@ func (e *explorer) explore(prefix []int, expect []cpRec, level int) {
 			case 'T':
 				if p.curEnabled {
 					pre++
+				} else {
+					free++
 				}
 			case 'S':
 				pre++
@@ -420,4 +429,26 @@ func (s *Stats) OutcomeList() []string {
 func Replay(sc *Scenario, choices []int) (outcome string, err error, trace []string, broken string) {
 	x := RunOnce(sc, choices, nil, true)
 	return x.out, x.err, x.res.Trace, x.broken
+}
+
+// RacePass runs the scenario body n times free-running (no scheduler). It is meant for binaries
+// built with -race: the detector's reports (stderr / GORACE log_path) are the output; the return
+// value is the number of bodies that completed.
+func RacePass(sc *Scenario, n int) (completed int, panics []string) {
+	vrt.FreeRunning = true
+	defer func() { vrt.FreeRunning = false }()
+	for i := 0; i < n; i++ {
+		func() {
+			defer func() {
+				if r := recover(); r != nil {
+					panics = append(panics, fmt.Sprint(r))
+				}
+			}()
+			body, check := sc.New()
+			body()
+			check(vrt.Result{})
+			completed++
+		}()
+	}
+	return completed, panics
 }
